@@ -20,6 +20,7 @@ import (
 	"verifharness/vh"
 
 	"github.com/projecteru2/core/lock"
+	"github.com/projecteru2/core/lock/etcdlock"
 )
 
 const (
@@ -27,12 +28,24 @@ const (
 	boundMs    = 2000 // notification bound handed to ok19
 	obsEtcdMs  = 2500 // observation window for the holder's context after the loss
 	obsRedisMs = 300
+
+	boundPartitionMs = 8000 // partition runs: notification bound = observation window
+	obsPartitionMs   = 8000
 )
 
 type plan struct {
-	N       int  `json:"n"`
-	Lose    bool `json:"lose"`
-	SleepMs int  `json:"sleep_ms"`
+	N         int  `json:"n"`
+	Lose      bool `json:"lose"`
+	SleepMs   int  `json:"sleep_ms"`
+	HolderTry bool `json:"holder_trylock"` // contender 0 acquires with TryLock (uncontended) instead of Lock
+	Partition bool `json:"partition,omitempty"`
+}
+
+func (p plan) holderOp() string {
+	if p.HolderTry {
+		return locklog.OpTry
+	}
+	return locklog.OpLock
 }
 
 type result struct {
@@ -94,11 +107,11 @@ func scenario(b backend, p plan, res *result) {
 		L.URet(i)
 	}
 
-	// A = 0 takes the lock
-	L.Call(0, locklog.OpLock)
-	ctxA, err, panicked := locklog.Acquire(ctx, locks[0], locklog.OpLock)
+	// A = 0 takes the lock (Lock or, uncontended, TryLock)
+	L.Call(0, p.holderOp())
+	ctxA, err, panicked := locklog.Acquire(ctx, locks[0], p.holderOp())
 	if err != nil || panicked {
-		L.Fail(0, locklog.ClassifyFail(locklog.OpLock, err, panicked))
+		L.Fail(0, locklog.ClassifyFail(p.holderOp(), err, panicked))
 		for _, l := range locks {
 			_ = locklog.Unlock(ctx, l)
 		}
@@ -212,6 +225,60 @@ func runEtcdRetry(env *locklog.Etcd, k int, p plan) (res result) {
 	}
 }
 
+// runPartition: one contender on the bridged cluster.  The lock object is made
+// by the public etcdlock.New on the cluster's client (store.CreateLock only
+// formats the key and calls it).  The holder acquires, then all traffic between
+// client and server is black-holed: keepalives stop, the lease runs out on the
+// server, and the holder's context must be cancelled.  The mutation history is
+// read back through a watch from the start revision after the heal.
+func runPartition(b *locklog.Bridged, k int, p plan) (res result) {
+	key := fmt.Sprintf("/%s/p%d", "__lock__", k)
+	pfx := key + "/"
+	startRev, err := b.Revision(pfx)
+	if err != nil {
+		return result{evs: locklog.Unacceptable(), infra: "setup: " + err.Error()}
+	}
+	lk, err := etcdlock.New(b.Cli, key, ttlMs*time.Millisecond)
+	if err != nil {
+		return result{evs: locklog.Unacceptable(), infra: "setup: " + err.Error()}
+	}
+	ctx, cancel := context.WithTimeout(context.Background(), 60*time.Second)
+	defer cancel()
+	unlock := func() error {
+		uctx, ucancel := context.WithTimeout(context.Background(), 10*time.Second)
+		defer ucancel()
+		return locklog.Unlock(uctx, lk)
+	}
+	L := locklog.NewLog()
+	L.Call(0, p.holderOp())
+	ctxA, err, panicked := locklog.Acquire(ctx, lk, p.holderOp())
+	if err != nil || panicked {
+		L.Fail(0, locklog.ClassifyFail(p.holderOp(), err, panicked))
+		_ = unlock()
+	} else {
+		L.Enter(0)
+		time.Sleep(time.Duration(p.SleepMs) * time.Millisecond)
+		L.Lose(0, 0)
+		b.Blackhole()
+		L.Lost(0)
+		L.Ctx(0, locklog.CtxState(ctxA, obsPartitionMs*time.Millisecond))
+		b.Unblackhole()
+		L.Exit(0)
+		if uerr := unlock(); uerr != nil {
+			res.notes = append(res.notes, fmt.Sprintf("unlock 0: %v", uerr))
+		}
+		L.URet(0)
+	}
+	res.evs = L.Events()
+	muts, err := b.History(pfx, startRev)
+	if err != nil {
+		res.infra = "watch: " + err.Error() // empty muts: the log cannot be accepted
+		return res
+	}
+	res.muts = muts
+	return res
+}
+
 func runRedis(key string, p plan) (res result) {
 	ttls := make([]time.Duration, p.N)
 	for i := range ttls {
@@ -226,7 +293,7 @@ func runRedis(key string, p plan) (res result) {
 	return res
 }
 
-func stream(t *testing.T, bk string, exec func(k int, p plan) result) {
+func stream(t *testing.T, bk string, exec func(k int, p plan) result, part *locklog.Bridged) {
 	var r *vh.Run
 	if bk == "etcd" {
 		r = vh.New(t, "C19", "etcd")
@@ -235,20 +302,51 @@ func stream(t *testing.T, bk string, exec func(k int, p plan) result) {
 		r = vh.New(t, "C19", "redis")
 		r.Coq("From Verif Require Import Locks.LockLog Locks.RedisLock.", "RedisLock.rcase", "RedisLock.ragree", "RedisLock.rok19")
 	}
-	// corpus: one lose run and one no-loss run of each size; then random plans.
-	// Everything is drawn before anything runs: deterministic given the seed.
-	plans := []plan{{2, true, 50}, {3, true, 50}, {2, false, 50}, {3, false, 50}}
+	// corpus: one lose run and one no-loss run of each size, and one of each
+	// with a TryLock-acquired holder; then random plans; then (etcd) the
+	// partition runs.  Everything is drawn before anything runs: deterministic
+	// given the seed.
+	plans := []plan{
+		{N: 2, Lose: true, SleepMs: 50}, {N: 3, Lose: true, SleepMs: 50},
+		{N: 2, Lose: false, SleepMs: 50}, {N: 3, Lose: false, SleepMs: 50},
+		{N: 2, Lose: true, SleepMs: 50, HolderTry: true}, {N: 2, Lose: false, SleepMs: 50, HolderTry: true},
+	}
 	n := r.N(10, 100)
 	for k := 0; k < n; k++ {
-		plans = append(plans, plan{N: 2 + r.Rng.Intn(2), Lose: r.Rng.Intn(10) < 7, SleepMs: 30 + r.Rng.Intn(71)})
+		plans = append(plans, plan{N: 2 + r.Rng.Intn(2), Lose: r.Rng.Intn(10) < 7, SleepMs: 30 + r.Rng.Intn(71), HolderTry: r.Rng.Intn(2) == 0})
+	}
+	nPlain := len(plans)
+	if part != nil {
+		for k, np := 0, r.N(2, 10); k < np; k++ {
+			// the first two: one Lock holder, one TryLock holder
+			try := k == 1 || (k >= 2 && r.Rng.Intn(2) == 0)
+			plans = append(plans, plan{N: 1, Lose: true, SleepMs: 30 + r.Rng.Intn(71), HolderTry: try, Partition: true})
+		}
 	}
 	results := make([]result, len(plans))
-	locklog.Pool(len(plans), 6, func(k int) { results[k] = exec(k, plans[k]) })
+	partDone := make(chan struct{})
+	go func() {
+		// sequentially (a black hole cuts the whole member), on their own
+		// cluster, concurrently with the other runs
+		defer close(partDone)
+		for k := nPlain; k < len(plans); k++ {
+			if k > nPlain {
+				// the heal closes every connection: let the client (its lease
+				// keepalive stream retries every 500 ms) settle before the next
+				// lease is granted, or the next holder's first keepalive falls
+				// under the client's 6 s first-keepalive time-out
+				time.Sleep(time.Second)
+			}
+			results[k] = runPartition(part, k, plans[k])
+		}
+	}()
+	locklog.Pool(nPlain, 6, func(k int) { results[k] = exec(k, plans[k]) })
+	<-partDone
 
 	dropped := 0
 	for k, p := range plans {
 		res := results[k]
-		if bk == "etcd" && res.infra == "" && res.hbMs >= stallMs {
+		if bk == "etcd" && !p.Partition && res.infra == "" && res.hbMs >= stallMs {
 			r.Count("runs_dropped_etcd_stalled")
 			dropped++
 			continue
@@ -261,10 +359,14 @@ func stream(t *testing.T, bk string, exec func(k int, p plan) result) {
 		var term string
 		fault := "none"
 		if bk == "etcd" {
-			term = fmt.Sprintf("(mkCase %s %s %s %s %s)", vh.ZList(ttl), vh.ZList(tmo), locklog.CoqMuts(res.muts), locklog.CoqLog(res.evs), vh.Z(boundMs))
+			bound := int64(boundMs)
 			if p.Lose {
 				fault = "lease_revoked"
 			}
+			if p.Partition {
+				fault, bound = "partition", boundPartitionMs
+			}
+			term = fmt.Sprintf("(mkCase %s %s %s %s %s)", vh.ZList(ttl), vh.ZList(tmo), locklog.CoqMuts(res.muts), locklog.CoqLog(res.evs), vh.Z(bound))
 		} else {
 			term = fmt.Sprintf("(mkRCase %s %s %s)", vh.ZList(tmo), locklog.CoqLog(res.evs), vh.Z(boundMs))
 			if p.Lose {
@@ -274,6 +376,8 @@ func stream(t *testing.T, bk string, exec func(k int, p plan) result) {
 		desc := map[string]any{"backend": bk, "plan": p, "log": res.evs}
 		if bk == "etcd" {
 			desc["muts"] = res.muts
+		}
+		if bk == "etcd" && !p.Partition {
 			desc["etcd_max_write_latency_ms"] = res.hbMs
 			desc["attempts"] = res.attempts
 			if res.attempts > 1 {
@@ -291,23 +395,28 @@ func stream(t *testing.T, bk string, exec func(k int, p plan) result) {
 		r.Count("backend=" + bk)
 		r.Count(fmt.Sprintf("n=%d", p.N))
 		r.Count("fault=" + fault)
+		r.Count("holder_op=" + p.holderOp())
 		for _, e := range res.evs {
 			if e.Kind == "ECtx" {
 				r.Count(fmt.Sprintf("ctx[%s,%s]=%s", fault, map[bool]string{true: "holder", false: "successor"}[e.I == 0], e.Arg))
 			}
 		}
-		r.Add(term, desc, map[string]any{"backend": bk, "fault": fault}, p.Lose)
+		r.Add(term, desc, map[string]any{"backend": bk, "fault": fault, "holder_op": p.holderOp()}, p.Lose)
 	}
 	if dropped*2 > len(plans) {
 		t.Fatalf("more than half of the etcd runs were dropped because the embedded cluster stalled (%d of %d)", dropped, len(plans))
 	}
 	r.Finish("scripted scenario on the real " + bk + " backend (real store.CreateLock, one lock object per contender):" +
-		" contender 0 holds, contender 1 waits in Lock, optionally (n=3) contender 2 try-locks; after 30..100 ms in ~70% of" +
+		" contender 0 takes the lock (Lock, or in ~half of the runs an uncontended TryLock) and holds, contender 1 waits in Lock," +
+		" optionally (n=3) contender 2 try-locks; after 30..100 ms in ~70% of" +
 		" the runs the holder loses its lock behind its back (etcd: session lease revoked through the cluster client;" +
-		" redis: TTL elapses, miniredis FastForward), the context returned to the holder is observed for at most" +
+		" redis: TTL elapses, miniredis FastForward), the context returned to the holder is observed (Done() and Err()) for at most" +
 		" 2500 ms (etcd) / 300 ms (redis); in the other runs the holder's context is inspected before a normal unlock;" +
-		" the successor's context is inspected too; corpus = one lose and one no-loss run for n=2,3;" +
-		" etcd: a run during which a heartbeat write to the embedded cluster took 500 ms or more is repeated (at most twice);" +
+		" the successor's context is inspected too; corpus = one lose and one no-loss run for n=2,3 and for a TryLock holder;" +
+		" etcd: a run during which a heartbeat write to the embedded cluster took 500 ms or more is repeated (at most three times, then dropped);" +
+		" etcd partition runs (2 quick / 10 thorough, sequential, on a second integration cluster behind a bridge, lock object from etcdlock.New," +
+		" exempt from the stall rule): a single holder (Lock / TryLock), then all client-server traffic is black-holed, the holder's context" +
+		" is observed for at most 8000 ms, the partition is healed, Unlock; the mutation history is read back by a watch from the start revision;" +
 		" non-trivial = the holder loses its lock")
 }
 
@@ -319,6 +428,12 @@ func TestC19(t *testing.T) {
 	if err != nil {
 		t.Fatalf("embedded etcd: %v", err)
 	}
-	stream(t, "etcd", func(k int, p plan) result { return runEtcdRetry(env, k, p) })
-	stream(t, "redis", func(k int, p plan) result { return runRedis(fmt.Sprintf("k%d", k), p) })
+	// second cluster, behind a bridge, for the partition runs (NewEtcd already
+	// put the test into etcd's integration test context)
+	part, err := locklog.NewBridged(t)
+	if err != nil {
+		t.Fatalf("bridged etcd: %v", err)
+	}
+	stream(t, "etcd", func(k int, p plan) result { return runEtcdRetry(env, k, p) }, part)
+	stream(t, "redis", func(k int, p plan) result { return runRedis(fmt.Sprintf("k%d", k), p) }, nil)
 }
